@@ -211,12 +211,15 @@ def _session(case) -> str:
                 dt = StringTransport()
                 dtp.makeConnection(dt)
                 proto.dtpInstance = dtp
-            line = c[0] if len(c) == 1 else c[0] + " " + c[1]
-            if c[0] == "RN":
-                proto.lineReceived(("RNFR " + c[1]).encode("latin-1"))
-                proto.lineReceived(("RNTO " + c[2]).encode("latin-1"))
-            else:
-                proto.lineReceived(line.encode("latin-1"))
+            # raw bytes on the control channel: the server decodes lines as latin-1 (FTP._encoding), so every
+            # byte value is a code point of the path; LineReceiver splits at CRLF
+            wire = c[0].encode("ascii") + (b" " + c[1].encode("latin-1") if len(c) > 1 else b"")
+            assert b"\r\n" not in wire
+            proto.dataReceived(wire + b"\r\n")
+            # FTP.lineReceived pauses itself and resumes from a reactor.callLater(0, ...); no reactor runs here,
+            # so the harness plays that tick
+            if proto.paused:
+                proto.resumeProducing()
             if needs_dtp:
                 for _ in range(50):
                     if dt.producer is None:
@@ -258,14 +261,10 @@ def impl(case) -> str:
         except InsecurePath:
             return "X"
         return "P:" + os.fsencode(r.path).hex()
-    # the protocol decodes control lines with its _encoding; latin-1 keeps every code point < 256 one byte
-    from twisted.protocols import ftp
-    old = ftp.FTP._encoding
-    ftp.FTP._encoding = "latin-1"
-    try:
-        return _session(case)
-    finally:
-        ftp.FTP._encoding = old
+    if k == "glob":
+        from twisted.protocols import ftp
+        return "T" if ftp._isGlobbingExpression([case["s"]]) else "F"
+    return _session(case)
 
 
 def oracle(case, obs):
@@ -277,6 +276,8 @@ def oracle(case, obs):
         for s in segs:
             if s in (b"", b".", b"..") or b"/" in s or b"\x00" in s:
                 return Failure(case, f"toSegments returned the segment {s!r}", "toSegments-dirty-segment")
+        return None
+    if k == "glob":
         return None
     if k == "path":
         if obs == "X":
@@ -319,7 +320,8 @@ def model_equal(case, a, b):
 
 # --------------------------------------------------------------------------------------------
 
-PIECES = ["/", "//", ".", "..", "...", "a", "b", "c", "d", "f.txt", "g.txt", "\x00", "\\", "..\\", "*", "sp ace",
+PIECES = ["/", "//", ".", "..", "...", "a", "b", "c", "d", "f.txt", "g.txt", "\x00", "\\", "..\\", "*", "sp ace", "\xff", "\xc0\xaf",
+          "\xe0\x80\xaf", "\x80", "\n", "\r",
           "rootsecret", "secret.txt", "s.txt", "root", "é", "~", "%2e%2e", "a\x00", "..\x00", "x"]
 
 
@@ -345,31 +347,32 @@ def _escape_path(rng):
 def _rand_cmd(rng, mkn):
     r = rng.random()
     p = _escape_path(rng) if rng.random() < 0.3 else _rand_path(rng)
-    if any(ch in p for ch in "\r\n"):
-        p = p.replace("\r", "").replace("\n", "")
-    if r < 0.25:
+    while "\r\n" in p:
+        p = p.replace("\r\n", "\n")
+    if r < 0.22:
         return ["CWD", p]
-    if r < 0.33:
+    if r < 0.29:
         return ["CDUP"]
-    if r < 0.40:
+    if r < 0.35:
         return ["MKD", rng.choice(["", "a/", "/a/b/", "../"]) + f"mk{rng.randrange(3)}"]
-    if r < 0.45:
+    if r < 0.40:
         return ["RMD", rng.choice(["", "a/", "/a/b/", "../"]) + f"mk{rng.randrange(3)}"]
-    if r < 0.50:
+    if r < 0.45:
         return ["STOR", rng.choice(["", "a/", "../", "../../"]) + f"up{rng.randrange(3)}"]
-    if r < 0.55:
-        return ["RN", p, rng.choice(["", "a/", "../"]) + f"mk{rng.randrange(3)}"]
-    if r < 0.60:
+    if r < 0.53:
+        return ["RNFR", rng.choice([p, "f.txt", f"up{rng.randrange(3)}", "../secret.txt"])]
+    if r < 0.62:
+        return ["RNTO", rng.choice([p, f"mk{rng.randrange(3)}", "../mk0", "a/mk1", "../../rootsecret/mk2"])]
+    if r < 0.66:
         return ["DELE", rng.choice([p, f"up{rng.randrange(3)}", "../secret.txt"])]
-    op = rng.choice(["LIST", "NLST", "SIZE", "MDTM", "RETR"])
-    if op == "NLST":
-        # NLST treats a last segment containing any character fnmatch.translate escapes ('.', '\\', '*', ...) as a
-        # filter and lists its parent; that is not modelled, so NLST arguments are built from plain names and '..'
-        p = "/".join(rng.choice(["a", "b", "c", "d", "..", "", "x"]) for _ in range(rng.randrange(0, 6)))
-        if rng.random() < 0.2:
-            p = "/" + p
-    if op == "LIST" and p.lower() in ("-a", "-l", "-la", "-al"):
-        p = ""
+    op = rng.choice(["LIST", "NLST", "NLST", "SIZE", "MDTM", "RETR"])
+    if op == "LIST" and rng.random() < 0.3:
+        p = rng.choice(["-a", "-l", "-la", "-al", "-L", "-Al", "-LA", "-aL", "-a/", "-lal", " -l"])
+    if op == "NLST" and rng.random() < 0.5:
+        # globbing (and what merely looks like it to fnmatch.translate) in the last segment, also reached via '..'
+        p = rng.choice(["", "a/", "/a/b/", "../", "a/../", "...", ".../"]) + rng.choice(
+            ["*", "*.txt", "f.txt", "g?txt", "[a-z]*", "sp ace", "a+b", "x-y", "~", "#", "a&b", "(x)", "{y}", "^", "$", "|",
+             "\\", "h.txt", "b", "a", "é", "\t", "x\ny", "..", "*/..", "../*", "*/"])
     return [op, p]
 
 
@@ -429,6 +432,12 @@ def gen(rng, tier):
         cases.append({"k": "sess", "cmds": cmds})
     for _ in range(120 if quick else 1500):
         cases.append({"k": "sess", "layout": "lonely", "cmds": _lonely_session(rng)})
+    for c in range(256):
+        cases.append({"k": "glob", "s": chr(c)})
+        cases.append({"k": "glob", "s": "a" + chr(c) + "b"})
+    for _ in range(100 if quick else 2000):
+        cases.append({"k": "glob", "s": "".join(chr(rng.choice([97, 46, 42, 63, 91, 93, 33, 45, 32, rng.randrange(256)]))
+                                                for _ in range(rng.randrange(0, 6)))})
     return cases
 
 
@@ -443,7 +452,11 @@ def corpus():
         {"k": "path", "root": "/tmp/foo", "segs": ["foobar", "x"]},
         {"k": "sess", "cmds": [["CWD", "a"], ["CWD", "../../rootsecret"], ["RETR", "../../secret.txt"], ["CDUP"], ["CDUP"],
                                ["RETR", "../rootsecret/s.txt"], ["LIST", "/../"], ["CWD", "/a/b"], ["RETR", "h.txt"],
-                               ["STOR", "../../../up0"], ["MKD", "/../mk0"], ["RN", "/f.txt", "../mk1"], ["DELE", "../../../secret.txt"]]},
+                               ["STOR", "../../../up0"], ["MKD", "/../mk0"], ["RNFR", "/f.txt"], ["CWD", "/"], ["RNTO", "../mk1"],
+                               ["RNTO", "mk2"], ["DELE", "../../../secret.txt"]]},
+        {"k": "sess", "cmds": [["CWD", ".../"], ["NLST", ""], ["NLST", "/a/*.txt"], ["NLST", "../*"], ["NLST", "/a/b/../g.txt"],
+                               ["LIST", "-aL"], ["RNFR", "../x"], ["RNFR", "f.txt"], ["RNTO", "/a/../../mk0"]]},
+        {"k": "sess", "cmds": [["CWD", "\xc0\xaf..\xc0\xaf"], ["RETR", "..\xe0\x80\xafsecret.txt"], ["CWD", "\xff\xfe/\x80"], ["NLST", "\xe9*"]]},
         {"k": "sess", "layout": "lonely", "cmds": [["MKD", "mk0/mk1"], ["RMD", "mk0/mk1"], ["RMD", "mk0"]]},
         {"k": "sess", "layout": "lonely", "cmds": [["MKD", "mk0"], ["STOR", "mk0/up0"], ["DELE", "mk0/up0"], ["RMD", "/mk0"], ["RMD", "/"]]},
         {"k": "sess", "cmds": [["CWD", "a/b/c"], ["CDUP"], ["NLST", ""], ["SIZE", "h.txt"], ["MDTM", "../g.txt"], ["RMD", "/mk0"]]},
@@ -457,21 +470,26 @@ def to_coq(case):
         if any(ord(c) > 255 for c in case["path"]) or any(ord(c) > 255 for s in case["cwd"] for c in s):
             return None
         return f"CSeg {segl(case['cwd'])} {cstr(case['path'])}"
+    if k == "glob":
+        return f"CGlob {cstr(case['s'])}"
     if k == "path":
         if any(ord(c) > 127 for s in case["segs"] for c in s):
             return None
         return f"CPath {coq_bytes(CWD)} {cstr(case['root'])} {segl(case['segs'])}"
-    if any(c[0] == "NLST" for c in case["cmds"]) and any(
-            c[0] == "CWD" and any("." in seg and seg not in (".", "..") for seg in c[1].split("/")) for c in case["cmds"]):
-        return None     # NLST in a directory whose name has a '.' filters its PARENT (see trusted base); oracle only
     cmds = []
     for c in case["cmds"]:
         if c[0] == "CWD":
             cmds.append(f"Cwd {cstr(c[1])}")
         elif c[0] == "CDUP":
             cmds.append("Cdup")
-        elif c[0] == "RN":
-            cmds.append(f"Ren {cstr(c[1])} {cstr(c[2])}")
+        elif c[0] == "RNFR":
+            cmds.append(f"Rnfr {cstr(c[1])}")
+        elif c[0] == "RNTO":
+            cmds.append(f"Rnto {cstr(c[1])}")
+        elif c[0] == "LIST":
+            cmds.append(f"Lst {cstr(c[1])}")
+        elif c[0] == "NLST":
+            cmds.append(f"Nlst {cstr(c[1])}")
         else:
             cmds.append(f"Op {cstr(c[1])}")
     dirs = coq_list([segl(d) for d in ([[]] if case.get("layout") == "lonely" else DIRS)], "(list bytes)")
